@@ -15,6 +15,7 @@ NAMES = [
     "dataset_name", "tfds_dir", "K", "as_numpy", "lr", "epochs", "alpha", "momentum",
     "nesterov", "log_dir", "mode", "size", "batch_size", "shuffle", "seed", "path",
     "verbose", "beta_1", "eps", "x", "y0", "loss", "optimizer", "metrics", "n",
+    "c", "s", "e", "cl",  # short names (fragments of "self" / "cls")
 ]
 KWARGS_NAMES = ["data_loader_kwargs", "kwargs", "extra_kwargs"]
 
